@@ -1,5 +1,5 @@
 '''C08 - dataset arithmetic.'''
-from ..rules import dataset
+from ..rules import dataset, patterns
 from ..variants import stats as _v
 
 ID = 'C08'
@@ -40,7 +40,13 @@ def check(ctx):
     ctx.run(dataset.check_op_direct)
     ctx.run(dataset.check_ds_ctor)
     ctx.run(dataset.check_ds_scale)
+    ctx.run(patterns.check_patterns, ID)
+
+
+def _variants(program):
+    return _v.variants(program, ID)
 
 
 def variants(program):
-    return _v.variants(program, ID)
+    from ..variants import patterns as _pv
+    return list(_variants(program)) + _pv.variants(program, ID)
